@@ -47,6 +47,7 @@ class FakeSock:
         self.blocking = True
         self.sent_after_close = 0
         self.recv_after_send = False        # the worker went back to reading after its last write
+        self.delivered = 0                  # bytes handed to the reader so far
 
     # -- reading
     def recv(self, n):
@@ -64,6 +65,7 @@ class FakeSock:
                 return b""
             self.pending = self.segs.pop(0)
         out, self.pending = self.pending[:n], self.pending[n:]
+        self.delivered += len(out)
         return out
 
     def more_input(self):
